@@ -38,6 +38,8 @@ def frac(v):
     if d <= 2**26 and abs(n) < 2**30:
         return n, d, 1
     D = max(1, min(10**6, int(2**30 / max(1.0, abs(f)))))
+    if 0 < abs(f) < 1e-4:
+        D = 10**9       # sub-cent quotes (1e-8 ticks): the numerator stays small, so a fine denominator fits
     fr = Fraction(f).limit_denominator(D)
     err = abs(fr - Fraction(f))
     # relative to the value (below 1 an absolute 1e-12 would accept a wrong small fraction for a
